@@ -232,15 +232,25 @@ class Container:
         raise NotImplementedError
 
     def _checkForCrossReferences(self, memo=None):
-        if not self._checkedForCrossReferences:
-            if memo is None:
-                memo = set()
-            if any(x is self for x in memo):
-                raise ContainerException(f"cannot fill a tree that contains the same aggregator twice: {self}")
-            memo.add(self)
-            for child in self.children:
+        if memo is None:
+            if not self._checkedForCrossReferences:
+                # walk the whole subtree once, remembering every node by identity; nodes are only marked as checked
+                # after the walk has succeeded, so a tree that was rejected is rejected again on the next fill
+                memo = {}
+                self._checkForCrossReferences(memo)
+                for node in memo.values():
+                    node._checkedForCrossReferences = True
+            return
+
+        if id(self) in memo:
+            raise ContainerException(f"cannot fill a tree that contains the same aggregator twice: {self.name}")
+        memo[id(self)] = self
+        # a SparselyBin/Categorize keeps the template for its bins in "value": it is never filled itself (bins are
+        # copies of it), so several containers may share one template
+        template = self.__dict__.get("value")
+        for child in self.children:
+            if child is not None and child is not template:
                 child._checkForCrossReferences(memo)
-            self._checkedForCrossReferences = True
 
     def toJsonFile(self, fileName):
         path = Path(fileName)
